@@ -132,6 +132,12 @@ func (e *Executor) traverse(rt RequestTask) error {
 		// if we've only loaded locally so far and hit a missing block
 		// initiate remote request and retry the load operation from remote
 		if _, ok := result.Err.(graphsync.RemoteMissingBlockErr); ok && !requestSent {
+			// a request that was cancelled before it went to the network must not go online now
+			select {
+			case <-rt.Ctx.Done():
+				return ipldutil.ContextCancelError{}
+			default:
+			}
 			requestSent = true
 
 			// tell the loader we're online now
